@@ -48,7 +48,10 @@ def patch_variants():
         if os.path.exists(pf) and os.path.exists(mf):
             m = json.load(open(mf))
             out.append({"id": "seed-" + os.path.basename(d), "kind": "break", "breaks": [m["breaks_property"]], "edits": [], "patch": pf,
-                        "silent": [], "note": m.get("needs_to_manifest", "")})
+                        "silent": [], "note": m.get("needs_to_manifest", ""),
+                        # a seed written in an idiom the analysis declares outside its subset: the own check must
+                        # then say so (exit 2, no verdict) - never pass it (exit 0)
+                        "expect": int(m.get("own_check_expected_exit", 1))})
     for d in sorted(glob.glob(os.path.join(VERIF, "seeded_neutral", "*"))):
         pf = os.path.join(d, "patch.diff")
         if os.path.exists(pf):
@@ -182,8 +185,8 @@ def sensitivity(pid, ctx=None, jobs=16, verbose=False):
         rows.append({"id": v["id"], "kind": v["kind"], "rc": rc, "rules": r["results"][pid]["rules"]})
         if v["kind"] == "break":
             applied_breaks += 1
-            if rc != 1:
-                bad.append("break variant %s not reported (rc=%d): %s" % (v["id"], rc, " | ".join(r["results"][pid]["tail"][-2:])))
+            if rc != v.get("expect", 1):
+                bad.append("break variant %s not reported (rc=%d, expected %d): %s" % (v["id"], rc, v.get("expect", 1), " | ".join(r["results"][pid]["tail"][-2:])))
         else:
             applied_neutral += 1
             if rc != 0:
@@ -226,7 +229,7 @@ def matrix(pids=None, only=None, jobs=16):
             rc = r["results"][pid]["rc"]
             exp = None
             if v["kind"] == "break" and pid in v["breaks"]:
-                exp = 1
+                exp = v.get("expect", 1)
             elif v["kind"] == "neutral":
                 exp = 0
             elif v["kind"] == "break" and pid in v.get("silent", ()):
